@@ -1278,20 +1278,13 @@ func (r *Runtime) regexpproto_stdReplacer(call FunctionCall) Value {
 		return r.regexpproto_stdReplacerGeneric(rxObj, s, replaceStr, rcall)
 	}
 
-	var index int64
-	find := 1
+	var found []regexpResult
 	if rx.pattern.global {
-		find = -1
-	} else {
-		index = rx.getLastIndex()
-	}
-	found := rx.pattern.findAllSubmatchIndex(s, toIntStrict(index), find, rx.pattern.sticky)
-	if rx.pattern.global || rx.pattern.sticky {
-		var newLastIndex int64
-		if !rx.pattern.global && len(found) > 0 {
-			newLastIndex = int64(found[len(found)-1].indexes[1])
-		}
-		rx.setOwnStr("lastIndex", intToValue(newLastIndex), true)
+		found = rx.pattern.findAllSubmatchIndex(s, 0, -1, rx.pattern.sticky)
+		rx.setOwnStr("lastIndex", intToValue(0), true)
+	} else if match, result := rx.execRegexp(s); match {
+		// a single RegExpBuiltinExec: honours lastIndex and the sticky flag and updates lastIndex
+		found = []regexpResult{result}
 	}
 	return r.stringReplace(s, found, replaceStr, rcall)
 }
